@@ -35,7 +35,11 @@ func (e *Env) WriteEvidence(id, level string, cov map[string]interface{}, assump
 	cov["seeds"] = map[string]interface{}{"verif_seed": int64(e.Seed), "derivation": "every case/run i draws all its choices from splitmix64(VERIF_SEED, property, stream name, i)"}
 	cov["repo_tree"] = e.Repo
 	ev := Evidence{PropertyID: id, Tier: e.Tier, Seed: int64(e.Seed), Level: level, Coverage: cov, Assumptions: assumptions, WallS: wall, Violations: violations}
-	return WriteFileJSON(filepath.Join(e.Home, "evidence", id+".json"), ev)
+	dir := "evidence"
+	if e.Repo != "/repo" { // a run against another tree (mutant testing) must never overwrite the evidence about /repo
+		dir = "evidence-other-tree"
+	}
+	return WriteFileJSON(filepath.Join(e.Home, dir, id+".json"), ev)
 }
 
 // OrderedDigest combines per-case digests keyed by the case index: the result does
